@@ -135,12 +135,13 @@ Definition send_echo6 (c : cfg) (src dst : addr) (id seq : N) (junk : bytes) : r
   icmp6_send_packet c src dst (enc_icmp_echo 128 0 id seq hello) junk.
 
 (* layer_icmp.go:376 ICMP6NeighborSolicitationMarshal(target, sourceLLA):
-   b := make(32); b[0]=135; copy(b[8:], target.AsSlice()); b[24]=2 (sic); b[25]=1; copy(b[26:], lla) *)
+   b := make(32); b[0]=135; copy(b[8:], target.AsSlice()); b[24]=1; b[25]=1; copy(b[26:], lla)
+   (option type 1 since fix 6b9f9d7) *)
 Definition ns_marshal (target lla : bytes) : bytes :=
   let b := repeat 0 32 in
   let b := set_nth 0 135 b in
   let b := cpy 8 24 target b in
-  let b := set_nth 24 2 b in
+  let b := set_nth 24 1 b in
   let b := set_nth 25 1 b in
   cpy 26 6 lla b.
 
